@@ -513,6 +513,11 @@ func changeStoreMapping(oldMapping, newMapping mapping.IndexMapping, oldStore, n
 			lowerIntersectionBound := math.Max(outLowerBound, inLowerBound)
 			higherIntersectionBound := math.Min(outHigherBound, inHigherBound)
 			intersectionSize := higherIntersectionBound - lowerIntersectionBound
+			if intersectionSize <= 0 {
+				// Rounding in Index can select the bin that ends just below inLowerBound: it does not
+				// overlap the input bin and must not be given a (negative) share of its weight.
+				continue
+			}
 			proportion := intersectionSize / inSize
 			newStore.AddWithCount(outIndex, proportion*count)
 		}
